@@ -5896,23 +5896,28 @@ func (lc *LightningChannel) ReceiveRevocation(revMsg *lnwire.RevokeAndAck) (
 	lc.Lock()
 	defer lc.Unlock()
 
-	// Ensure that the new pre-image can be placed in preimage store.
 	store := lc.channelState.RevocationStore
 	revocation, err := chainhash.NewHash(revMsg.Revocation[:])
 	if err != nil {
-		return nil, nil, err
-	}
-	if err := store.AddNextEntry(revocation); err != nil {
 		return nil, nil, err
 	}
 
 	// Verify that if we use the commitment point computed based off of the
 	// revealed secret to derive a revocation key with our revocation base
 	// point, then it matches the current revocation of the remote party.
+	// This is checked before the store is touched: the store only checks a
+	// new secret against the ones it can derive from it (none for every
+	// other height), so a secret that doesn't belong to the commitment
+	// being revoked must never reach it.
 	currentCommitPoint := lc.channelState.RemoteCurrentRevocation
 	derivedCommitPoint := input.ComputeCommitmentPoint(revMsg.Revocation[:])
 	if !derivedCommitPoint.IsEqual(currentCommitPoint) {
 		return nil, nil, fmt.Errorf("revocation key mismatch")
+	}
+
+	// Ensure that the new pre-image can be placed in preimage store.
+	if err := store.AddNextEntry(revocation); err != nil {
+		return nil, nil, err
 	}
 
 	// Now that we've verified that the prior commitment has been properly
